@@ -1,12 +1,12 @@
 #!/bin/bash
-# usage: reseedpar.sh — tools/reseed.sh over all stored seeded changes, four properties at a time (properties that
-# share a harness binary stay in the same stream). Result lines go to seeded/RESEED.log.
+# usage: reseedpar.sh [streams] — tools/reseed.sh over all stored seeded changes, in parallel streams (every run has
+# its own scratch worktree and build directory). Result lines go to seeded/RESEED.log.
 cd /verif
-run() { for p in "$@"; do tools/reseed.sh "seeded/$p-mut*"; done; }
-( run C01 C05 C09 C13 C17 > /tmp/reseed-1.log 2>&1 ) &
-( run C02 C18 C06 C10 C14 > /tmp/reseed-2.log 2>&1 ) &
-( run C03 C07 C11 C15 C19 > /tmp/reseed-3.log 2>&1 ) &
-( run C04 C08 C12 C16 C20 > /tmp/reseed-4.log 2>&1 ) &
+N=${1:-6}
+ls -d seeded/C*-mut* | sort > /tmp/reseed-all.txt
+for k in $(seq 0 $((N-1))); do
+  ( awk -v n=$N -v k=$k 'NR%n==k' /tmp/reseed-all.txt | while read d; do tools/reseed.sh "$d"; done > /tmp/reseed-$k.log 2>&1 ) &
+done
 wait
-{ echo "# reseed of $(ls -d seeded/C*-mut* | wc -l) stored changes against /repo $(git -C /repo rev-parse --short HEAD), /verif $(git rev-parse --short HEAD)"; cat /tmp/reseed-[1-4].log | sort; } > seeded/RESEED.log
-grep -c caught seeded/RESEED.log; grep -v caught seeded/RESEED.log
+{ echo "# reseed of $(wc -l < /tmp/reseed-all.txt) stored changes against /repo $(git -C /repo rev-parse --short HEAD), /verif $(git rev-parse --short HEAD)"; cat /tmp/reseed-[0-9]*.log | sort; } > seeded/RESEED.log
+grep -c caught seeded/RESEED.log; grep -v "caught\|^#" seeded/RESEED.log
